@@ -59,12 +59,13 @@ PROPS = {
     },
     'C11': {
         'modules': ['OtterVerif.Props.C11', 'OtterVerif.Props.C10'],
-        'engines': [seq(['load', 'deferred'], 300, 10000,
-                        lambda f: f['class'] == 'C11' or (f['op'] in ('end', 'call', 'ret') and f['class'] in ('result', 'events')))],
+        'engines': [seq(['load', 'deferred'], 480, 12000,
+                        # (an entry whose deadlines are wrong after a refresh is a C11 matter too: "a failed reload leaves it and its expiry untouched")
+                        lambda f: f['class'] in ('C11', 'entry') or (f['op'] in ('end', 'call', 'ret') and f['class'] in ('result', 'events')))],
     },
     'C12': {
         'modules': ['OtterVerif.Props.C12'],
-        'engines': [seq(['huge', 'expiry'], 200, 6000,
+        'engines': [seq(['huge', 'expiry', 'load'], 360, 9000,
                         lambda f: f['class'] in ('entry', 'result', 'events') and f['op'] not in ('end', 'call', 'ret'))],
         'assumptions': ["int64 arithmetic of Go modelled as Int with explicit two's-complement wrap (wrapS 64)"],
     },
@@ -130,7 +131,10 @@ PROPS['C16'] = {
     'modules': ['OtterVerif.Props.C16'],
     'engines': [unit('mpsc', 120, 6000, chunk=10),
                 {'kind': 'unit', 'name': 'concmpsc', 'hcmd': 'conc-mpsc', 'dcmd': 'concmpsc', 'quick': 120, 'thorough': 6000, 'chunk': 10, 'args': []},
-                {'kind': 'unit', 'name': 'concpolicy', 'hcmd': 'conc-policy', 'dcmd': 'concpolicy', 'quick': 32, 'thorough': 2000, 'chunk': 4, 'args': []}],
+                {'kind': 'unit', 'name': 'concpolicy', 'hcmd': 'conc-policy', 'dcmd': 'concpolicy', 'quick': 48, 'thorough': 2000, 'chunk': 4, 'args': []},
+                # an update/delete event the buffer accepted and never delivered shows as a value that left the cache without OnDeletion
+                {'kind': 'unit', 'name': 'concevents', 'hcmd': 'conc-events', 'dcmd': 'concevents', 'quick': 60, 'thorough': 3000, 'chunk': 10, 'args': [],
+                 'accept': lambda f: 'without an OnDeletion event' in f['msg']}],
     'rule': 'CONC-policy (shared with C04/C05; every fourth script stalls the executor so that the write buffer fills up and writers hand their event over directly): no cache write is forgotten by the policy - table vs deques at quiescence. UNIT-mpsc: sequential push/pop phases over initial/maximum capacity pairs (2..100 / 4..2048), every chunk switch and the full/empty boundaries; model must reproduce the five index words and chunk lengths, oracle = bounded FIFO. '
             'CONC-mpsc: 1-12 real producers with (a) no consumer and offers that fit: no refusal allowed, (b) a consumer: delivery log exactly-once and in per-producer order. distinct = distinct transcripts with >= 10 lines',
     'trusted': UNIT_TRUST + CONC_TRUST,
